@@ -3,6 +3,7 @@ jitter bounded, invalid parameters raise ValueError before anything is yielded."
 import itertools
 import json
 import math
+import random as _random
 import struct
 from fractions import Fraction
 
@@ -39,10 +40,29 @@ def X(x):
     return n * (U // d)
 
 
-class ScriptedRandom:
-    """stands in for the `random` module inside boltons.iterutils: only `.random()` exists"""
+class _Scripted(_random.Random):
+    """stands in for the `random` module inside boltons.iterutils.  `random()` returns the scripted draws (then 0.0);
+    being a `random.Random` whose `random()` is overridden, every other drawing function (`uniform`, `triangular`,
+    `randrange`, `choice`, …) is derived from those draws by the standard library's own code, and any other attribute
+    (`Random`, `SystemRandom`, constants) is the real module's - the statement says nothing about WHICH function of
+    the random module the implementation draws with."""
 
+    def __getattr__(self, name):           # only reached for names random.Random does not have
+        return getattr(_random, name)
+
+    def seed(self, *a, **kw):              # called by Random.__init__; a script has no seed
+        pass
+
+    def getstate(self):
+        return None
+
+    def setstate(self, state):
+        pass
+
+
+class ScriptedRandom(_Scripted):
     def __init__(self, draws):
+        super().__init__()
         self.draws = list(draws)
         self.used = 0
 
@@ -52,11 +72,12 @@ class ScriptedRandom:
         return self.draws[i] if i < len(self.draws) else 0.0
 
 
-class SessionRandom:
+class SessionRandom(_Scripted):
     """the `random` stand-in for a whole session: every object (call) has its own script, the harness says
     which object is being advanced before it calls into boltons"""
 
     def __init__(self):
+        super().__init__()
         self.scripts, self.used, self.cur = {}, {}, None
 
     def random(self):
@@ -64,6 +85,38 @@ class SessionRandom:
         self.used[self.cur] = i + 1
         d = self.scripts.get(self.cur, ())
         return d[i] if i < len(d) else 0.0
+
+
+def install_random(iu, stub):
+    """make `stub` the random source of module instance `iu`: the module attribute `random`, and every module-level
+    name bound to a drawing function of the real module's hidden instance (`from random import random, uniform`).
+    Returns what to restore."""
+    saved = {}
+    for name, v in list(vars(iu).items()):
+        if v is _random:
+            saved[name] = v
+            setattr(iu, name, stub)
+        elif getattr(v, '__self__', None) is _random._inst and hasattr(stub, getattr(v, '__name__', '')):
+            saved[name] = v
+            setattr(iu, name, getattr(stub, v.__name__))
+    if 'random' not in saved and not hasattr(iu, 'random'):
+        pass
+    return saved
+
+
+def restore_random(iu, saved):
+    for name, v in saved.items():
+        setattr(iu, name, v)
+
+
+def cz(hx):
+    """a zero of either sign is the real number 0: the statement is about real values"""
+    return '0000000000000000' if hx == '8000000000000000' else hx
+
+
+def ename(e):
+    """exception class as the statement sees it: any ValueError (also a subclass) is a ValueError"""
+    return 'ValueError' if isinstance(e, ValueError) else exc_name(e)
 
 
 MUTS = ['pop0', 'pop', 'clear', 'app', 'rev', 'set0', 'keep1']     # what a caller does to a list it was handed
@@ -99,7 +152,7 @@ class C15(Property):
             'over a small grid of parameter values (valid and invalid); 1500 more seeded random sessions and 500 such pairs; seeded random dyadic parameter sets whose float '
             'arithmetic is exact (run on the Float and on the exact Rat instance of the model); float sets with stop '
             'placed 0..2 ulps around start*factor^k (default-count edges); adversarial magnitudes (subnormal start, '
-            'overflowing products, factor 1+ulp, start 0 with stop <= 1, extreme draws). Non-trivial = valid parameters '
+            'overflowing products, factor 1+ulp, start 0 with stop <= 1, extreme draws); every boundary / ulp-edge / adversarial call whose parameters are finite with a clear sign bit is also run on the D instance of the model (B64, the natural-number model of binary64 arithmetic the b64_* theorems are about). What is compared with the model: un-jittered values bit for bit (zeros without sign), exception classes (any ValueError subclass is a ValueError; raised at the call or at the first next()), StopIteration; of a call with jitter the number of values and, value by value, membership in the statement\'s interval around the model\'s own un-jittered delay (the driver is told the observed values), plus the same call with jitter off bit for bit; of a count=None call the values, its length being accepted when at least the minimal default count (the statement fixes the last value, not the length); count=None with factor exactly 1 is oracle-only. Non-trivial = valid parameters '
             'whose un-jittered sequence has a growth step and reaches the cap (a session: at least two calls, one of them non-trivial); distinct = distinct parameter tuples / operation lists.')
     ASSUMPTIONS = [
         'start/stop/factor/jitter are finite doubles (ints that are exactly representable are also passed as int/bool); '
@@ -108,16 +161,23 @@ class C15(Property):
         '(module body executed again), so a reported failing input fails on its own; state kept by OTHER modules across '
         'calls would only be seen within one session',
         'on floats "grows by exactly factor" is read as one multiplication per step, accepted within 4 ulp by the oracle '
-        '(the model correspondence is bit-exact); jitter bounds are accepted within 4 ulp of the larger bound',
+        '(the model correspondence is bit-exact for un-jittered values); jitter bounds are accepted within 4 ulp of the '
+        'larger bound (2^-50 relative + 4 smallest subnormals), by the oracle and by the driver\'s acceptance test alike',
+        'the random source handed to the module is a random.Random whose random() returns the scripted draws (all other '
+        'drawing functions derive from it, other attributes are the real module\'s); how many draws a value consumes and '
+        'which function draws them is not compared',
         'default count: the last-value-is-stop clause is demanded where stepping makes progress (factor > 1 and start '
         'either 0 or a normal double); for factor == 1 with count None the statement is silent (any exception before '
         'the first value, or values of the right shape, are accepted), for subnormal start a ValueError before the '
-        'first value is accepted as well',
+        'first value is accepted as well - but only when stepping by one IEEE multiplication really stops making progress '
+        'below stop (simulated independently by the oracle)',
         'Lean Float arithmetic (compiled C double operations, SSE2) is the IEEE-754 arithmetic CPython uses',
-        'the order-layer theorems apply to doubles under the usual reading: finite doubles are linearly ordered and '
-        'x <= fl(x * factor) for factor >= 1, x >= 0 (rounding is monotone); Lean cannot prove facts about Float',
+        'the order-layer theorems apply to doubles through B64, a natural-number model of non-negative binary64 numbers with '
+        'the correctly rounded product, for which linear order and x <= fl(x * factor) for factor >= 1 are PROVED '
+        '(b64_mul_ge); that B64.mul is the multiplication CPython performs is validated bit for bit by the D instance of the '
+        'correspondence, not proved (Lean cannot prove facts about its opaque Float)',
     ]
-    CORRESPONDENCE_NAME = 'C15.Driver (backoffIter/backoff model, Float and Rat instances) vs boltons.iterutils.backoff_iter/backoff'
+    CORRESPONDENCE_NAME = 'C15.Driver (backoffIter/backoff model; Float, Rat and B64 instances; jittered values by acceptance) vs boltons.iterutils.backoff_iter/backoff'
 
     # ------------------------------------------------------------------ generation
     def mk(self, fn, start, stop, count, factor, jitter=0.0, draws=(), take=0, inst='F', py=False):
@@ -452,12 +512,21 @@ class C15(Property):
                     for c in (None, 'repeat', 2):
                         yield mk(fn, start, stop, c, 2.0, take=2)
 
+    @staticmethod
+    def dtwin(c):
+        """the same call on the `D` instance of the model (B64: the natural-number model of non-negative binary64
+        arithmetic that the b64_* theorems are about) - when every parameter is a finite double with a clear sign bit"""
+        if all(c[k][0] in '01234567' and math.isfinite(f(c[k])) for k in ('start', 'stop', 'factor', 'jitter')):
+            yield dict(c, inst='D')
+
     def cases(self, budget_s):
         rng = self.rng
         for c in self.sessions_small():
             yield c
         for c in self.early():
             yield c
+            for d in self.dtwin(c):
+                yield d
         for c in self.sessions_long():
             yield c
         for i in range(150):
@@ -475,9 +544,15 @@ class C15(Property):
             yield c
             yield dict(c, inst='Q')
         for i in range(9000 * mult):
-            yield self.edge(rng)
+            c = self.edge(rng)
+            yield c
+            for d in self.dtwin(c):
+                yield d
         for i in range(5000 * mult):
-            yield self.adversarial(rng)
+            c = self.adversarial(rng)
+            yield c
+            for d in self.dtwin(c):
+                yield d
 
     def deep_cases(self, budget_s):
         rng = self.rng
@@ -515,28 +590,92 @@ class C15(Property):
         drains = [i for i, op in calls.items() if op['fn'] == 'I' and op['count'] != 'repeat']
         return calls, pos, drains
 
+    # the observation of the case most recently run, for `line` (acceptance mode: the driver is told the jittered
+    # values the implementation yielded and judges them by the statement's interval clause)
+    def _remember(self, case, obs):
+        c = self.__dict__.setdefault('_obs_cache', {})
+        if len(c) > 4000:
+            c.clear()
+        c[id(case)] = (case, obs)
+        return obs
+
+    def _obs_for(self, case):
+        e = self.__dict__.get('_obs_cache', {}).get(id(case))
+        if e is None or e[0] is not case:
+            return self.impl(case)
+        return e[1]
+
+    @staticmethod
+    def observed(o):
+        """the values of one observation as a driver token"""
+        if not o or o.get('exc') or not o.get('vals'):
+            return '-'
+        return ','.join(v if not v.startswith('type:') else 'X' for v in o['vals'])
+
+    @staticmethod
+    def jittered(op):
+        return f(op['jitter']) != 0.0
+
+    @staticmethod
+    def silent(op):
+        """count=None with factor exactly 1: the statement says nothing about the default count there ("with the
+        default count (factor > 1) ..."), so what the code does (ValueError when start < stop, [stop] when
+        start == stop) is not compared with the model; the oracle still judges the shape of whatever is yielded"""
+        return op['count'] is None and f(op['factor']) == 1.0
+
+    @staticmethod
+    def produced(case, obs, calls):
+        """for every count=None call of a session that ran to its end: how many values it produced (as a string).
+        The statement fixes the LAST value of a default-count run (stop), not their number: the driver judges the
+        call as count=<that number> when it is at least the model's own minimal default count."""
+        tot, ended = {}, {}
+        for op, o in list(zip(case['ops'], obs['ops'])) + [({'op': 'pull', 'id': int(i)}, o) for i, o in obs['drain'].items()]:
+            i = op['id']
+            if i not in calls or calls[i]['count'] is not None:
+                continue
+            if op['op'] == 'call' and calls[i]['fn'] == 'L' and not o.get('exc'):
+                tot[i], ended[i] = len(o['vals']), True
+            elif op['op'] == 'pull' and 'vals' in o and not ended.get(i):
+                if o['exc']:
+                    ended[i] = 'exc'
+                else:
+                    tot[i] = tot.get(i, 0) + len(o['vals'])
+                    if o['end'] == 'end':
+                        ended[i] = True
+        return {i: str(n) for i, n in tot.items() if ended.get(i) is True}
+
     def session_line(self, case):
         plan = self.session_plan(case)
         if plan is None:
             return None
         calls, pos, drains = plan
+        if any(self.silent(c) for c in calls.values()):
+            return None
+        dflt = any(c['count'] is None for c in calls.values())
+        obs = self._obs_for(case) if dflt or any(self.jittered(c) for c in calls.values()) else None
+        produced = self.produced(case, obs, calls) if dflt else {}
         out = []
-        for op in case['ops']:
+        for n, op in enumerate(case['ops']):
+            jit = self.jittered(calls[op['id']])
             if op['op'] == 'call':
                 c = op['count']
                 if isinstance(c, int) and c > MODEL_MAX_COUNT:
                     return None
-                cs = 'N' if c is None else 'R' if c == 'repeat' else str(c)
-                out.append(' '.join([op['fn'], op['start'], op['stop'], cs, op['factor'], op['jitter'],
-                                     ','.join(op['draws']) or '-']))
+                cs = 'N' + produced.get(op['id'], '') if c is None else 'R' if c == 'repeat' else str(c)
+                toks = [op['fn'], op['start'], op['stop'], cs, op['factor'], op['jitter'], ','.join(op['draws']) or '-']
+                if jit:
+                    toks.append(self.observed(obs['ops'][n]) if op['fn'] == 'L' else '-')
+                out.append(' '.join(toks))
             elif op['op'] == 'pull':
-                out.append('P %d %d' % (pos[op['id']], op['n']))
+                out.append('P %d %d%s' % (pos[op['id']], op['n'], ' ' + self.observed(obs['ops'][n]) if jit else ''))
             elif op['op'] == 'mut':
                 out.append('M %d %s%s' % (pos[op['id']], op['how'], ' ' + op['val'] if 'val' in op else ''))
             else:
                 out.append('R %d' % pos[op['id']])
         for i in drains:
-            out.append('P %d %d' % (pos[i], self.drain_limit(calls[i])))
+            jit = self.jittered(calls[i])
+            out.append('P %d %d%s' % (pos[i], self.drain_limit(calls[i]),
+                                      ' ' + self.observed(obs['drain'].get(str(i))) if jit else ''))
         return 'S|%s|%s' % (case['inst'], ';'.join(out))
 
     def line(self, case):
@@ -548,9 +687,18 @@ class C15(Property):
         for k in ('start', 'stop', 'factor', 'jitter'):
             if not math.isfinite(f(case[k])):
                 return None
+        if self.silent(case):
+            return None
         cs = 'N' if c is None else 'R' if c == 'repeat' else str(c)
-        return ' '.join([case['inst'], case['fn'], case['start'], case['stop'], cs, case['factor'], case['jitter'],
-                         str(case['take']), ','.join(case['draws']) or '-'])
+        if c is None:
+            o = self._obs_for(case)
+            if not o['exc'] and o['end'] == 'stop':
+                cs = 'N%d' % len(o['vals'])      # the statement fixes the last value of a default run, not its length
+        toks = [case['inst'], case['fn'], case['start'], case['stop'], cs, case['factor'], case['jitter'],
+                str(case['take']), ','.join(case['draws']) or '-']
+        if self.jittered(case):
+            toks.append(self.observed(self._obs_for(case)))      # acceptance mode
+        return ' '.join(toks)
 
     # ------------------------------------------------------------------ implementation
     @staticmethod
@@ -590,9 +738,8 @@ class C15(Property):
         else:
             limit = min(max(count, 0) + 3, MAX_VALUES)
         stub = ScriptedRandom(f(d) for d in case['draws'])
-        saved = iu.random
         vals, exc, end = [], None, 'stop'
-        iu.random = stub
+        saved = install_random(iu, stub)
         try:
             with time_limit(2):
                 count = self.count_arg(count, py)
@@ -613,9 +760,9 @@ class C15(Property):
         except CaseTimeout:
             exc, end = 'CaseTimeout', 'timeout'
         except Exception as e:  # recorded, judged by the oracle
-            exc, end = exc_name(e), 'exc'
+            exc, end = ename(e), 'exc'
         finally:
-            iu.random = saved
+            restore_random(iu, saved)
         return {'vals': self.enc(vals), 'exc': exc, 'end': end, 'used': stub.used}
 
     @staticmethod
@@ -665,7 +812,7 @@ class C15(Property):
         except CaseTimeout:
             exc = 'CaseTimeout'
         except Exception as e:  # recorded, judged by the oracle
-            exc = exc_name(e)
+            exc = ename(e)
         return {'vals': self.enc(vals), 'exc': exc, 'end': end}
 
     def impl_session(self, case):
@@ -673,8 +820,7 @@ class C15(Property):
         stub = SessionRandom()
         objs = {}                                  # id -> {'op': call op, 'obj': list | iterator, 'pending': exc name}
         out, drain, twins = [], {}, {}
-        saved = iu.random
-        iu.random = stub
+        saved = install_random(iu, stub)
         try:
             for op in case['ops']:
                 kind, oid = op['op'], op['id']
@@ -701,10 +847,10 @@ class C15(Property):
                                 out.append({'gen': 1, 'exc': None})
                     except CaseTimeout:
                         rec['pending'] = 'CaseTimeout'
-                        out.append({'vals': [], 'exc': 'CaseTimeout', 'end': 'timeout'})
+                        out.append({'vals': [], 'exc': 'CaseTimeout', 'end': 'timeout', 'fn': op['fn']})
                     except Exception as e:  # recorded, judged by the oracle
-                        rec['pending'] = exc_name(e)
-                        out.append({'vals': [], 'exc': exc_name(e), 'end': 'exc'})
+                        rec['pending'] = ename(e)
+                        out.append({'vals': [], 'exc': ename(e), 'end': 'exc', 'fn': op['fn']})
                 elif kind == 'pull':
                     out.append(self.session_pull(stub, o, oid, op['n']))
                 elif o is None or o['op']['fn'] != 'L' or not isinstance(o['obj'], list):
@@ -733,13 +879,13 @@ class C15(Property):
                 if o['op']['fn'] == 'I' and o['op']['count'] != 'repeat':
                     drain[str(oid)] = self.session_pull(stub, o, oid, self.drain_limit(o['op']))
         finally:
-            iu.random = saved
+            restore_random(iu, saved)
         obs = {'ops': out, 'drain': drain, 'twins': twins}
         for oid, cc, co, label in self.per_call(case, obs):
             if f(cc['jitter']) != 0.0 and str(oid) not in twins:
                 twins[str(oid)] = self.call(cc, False, iu)       # the same call with jitter off, after the session
         self.stats['kind:session'] = self.stats.get('kind:session', 0) + 1
-        return obs
+        return self._remember(case, obs)
 
     def per_call(self, case, obs):
         """every call of a session as (id, single-call case, single-call observation, label): lists as returned and
@@ -754,7 +900,9 @@ class C15(Property):
                       'factor': op['factor'], 'jitter': op['jitter'], 'draws': op['draws'], 'take': 0, 'py': op['py']}
                 st = state[oid] = {'cc': cc, 'at': i, 'changed': False, 'vals': [], 'exc': ob.get('exc'), 'end': 'cut',
                                    'asked': 0, 'pulled': False}
-                if op['fn'] == 'L':
+                if op['fn'] == 'L' or ob.get('exc'):
+                    # (a backoff_iter call that raised at once - validation when called rather than at the first
+                    # next() - is judged as the call that yielded nothing and raised)
                     res.append((oid, cc, {'vals': ob['vals'], 'exc': ob['exc'], 'end': ob['end']},
                                 'operation %d, %s' % (i, self.call_text(cc))))
             elif oid not in state:
@@ -812,16 +960,24 @@ class C15(Property):
             return self.impl_session(case)
         j = f(case['jitter'])
         jarg = self.jarg(j, case['py'])
+        # a `D` twin directly follows its `F` case and is the very same call (each case runs in a fresh module, so
+        # the observation is a function of the call): the implementation is run once for the two model instances
+        sig = json.dumps({k: v for k, v in case.items() if k != 'inst'}, sort_keys=True)
+        last = self.__dict__.get('_last_call')
+        if case['inst'] == 'D' and last and last[0] == sig:
+            self.stats['inst:D'] = self.stats.get('inst:D', 0) + 1
+            return self._remember(case, last[1])
         iu = self.fresh_module()         # every case starts from a freshly imported module: a failing case fails alone
         obs = self.call(case, jarg, iu)
         if j != 0.0:
             obs['base'] = self.call(case, False, iu)
+        self._last_call = (sig, obs)
         k = 'exc:' + str(obs['exc']) if obs['exc'] else 'count:' + ('None' if case['count'] is None else
                                                                    'repeat' if case['count'] == 'repeat' else 'int')
         for k in (k, 'inst:' + case['inst'], 'fn:' + ('backoff' if case['fn'] == 'L' else 'backoff_iter'),
                   'jitter:' + ('on' if j != 0.0 else 'off'), 'values:%s' % min(len(obs['vals']).bit_length(), 12)):
             self.stats[k] = self.stats.get(k, 0) + 1
-        return obs
+        return self._remember(case, obs)
 
     def render(self, case, obs):
         if case.get('kind') == 'S':
@@ -829,58 +985,76 @@ class C15(Property):
         return self.render_call(case, obs)
 
     def render_session(self, case, obs):
-        def vs(o):
+        """what the statement constrains, operation by operation: values of un-jittered objects bit for bit (zeros
+        without sign); of an object made with jitter only how many values there are (`~` each - the driver marks a
+        value `!` when it is outside the jitter interval around the model's own un-jittered delay); StopIteration;
+        exception classes.  WHEN a generator's ValueError surfaces - at the backoff_iter() call or at the first
+        next() - is not fixed by the statement ("before anything is yielded"): a call that raised is shown as the
+        generator it would have returned, the exception at its first next()."""
+        plan = self.session_plan(case)
+        calls = plan[0] if plan else {}
+
+        def vs(o, jit):
+            if jit:
+                return ','.join('~' if not v.startswith('type:') else v for v in o['vals']) or '-'
             return ','.join(self.rval(case['inst'], v) for v in o['vals']) or '-'
 
-        def pull_text(o):
+        def pull_text(o, jit):
             if 'skip' in o:
                 return 'skip'
             if o['exc']:
                 return 'err ' + o['exc'] if not o['vals'] else 'err-late %s after %d values' % (o['exc'], len(o['vals']))
-            return 'vals %s %s' % (vs(o), o['end'])
+            return 'vals %s %s' % (vs(o, jit), o['end'])
         out = []
         for op, o in zip(case['ops'], obs['ops']):
+            jit = op['id'] in calls and self.jittered(calls[op['id']])
             if op['op'] == 'call':
-                if o['exc']:
+                if o['exc'] and op['fn'] == 'I':
+                    out.append('gen')
+                elif o['exc']:
                     out.append('err ' + o['exc'])
                 else:
-                    out.append('gen' if 'gen' in o else 'ok ' + vs(o))
+                    out.append('gen' if 'gen' in o else 'ok ' + vs(o, jit))
             elif op['op'] == 'pull':
-                out.append(pull_text(o))
+                out.append(pull_text(o, jit))
             elif 'skip' in o:
                 out.append('skip')
             else:
-                out.append('mut' if op['op'] == 'mut' else 'ok ' + vs(o))
-        plan = self.session_plan(case)
+                out.append('mut' if op['op'] == 'mut' else 'ok ' + vs(o, jit))
         for oid in (plan[2] if plan else []):
-            out.append(pull_text(obs['drain'][str(oid)]))
+            out.append(pull_text(obs['drain'][str(oid)], self.jittered(calls[oid])))
         return ' ; '.join(out)
 
     @staticmethod
     def rval(inst, hx):
-        if hx.startswith('type:') or inst == 'F':
+        if hx.startswith('type:'):
             return hx
+        if inst in 'FD':
+            return cz(hx)
         fr = Fraction(f(hx))
         return '%d/%d' % (fr.numerator, fr.denominator)
 
-    def render_call(self, case, obs):
-        def val(hx):
-            if hx.startswith('type:'):
-                return hx
-            if case['inst'] == 'F':
-                return hx
-            fr = Fraction(f(hx))
-            return '%d/%d' % (fr.numerator, fr.denominator)
-        vs = ','.join(val(v) for v in obs['vals']) or '-'
+    def render_call(self, case, obs, marks=False):
+        """un-jittered calls: every value bit for bit (zeros without sign).  Calls with jitter (acceptance mode): one
+        `~` per value (the driver answers `!` for a value outside the statement's interval around ITS un-jittered
+        delay at that position), then the same call made with jitter off, bit for bit."""
+        if marks:
+            vs = ','.join('~' if not v.startswith('type:') else v for v in obs['vals']) or '-'
+        else:
+            vs = ','.join(self.rval(case['inst'], v) for v in obs['vals']) or '-'
         if obs['exc']:
             if obs['vals']:
                 return 'err-late %s after %d values' % (obs['exc'], len(obs['vals']))
             return 'err ' + obs['exc']
         if case['count'] == 'repeat' and case['fn'] == 'I' and obs['end'] == 'cut':
-            return 'rep ' + vs
-        if obs['end'] == 'stop':
-            return 'ok ' + vs
-        return 'toomany ' + vs
+            head = 'rep ' + vs
+        elif obs['end'] == 'stop':
+            head = 'ok ' + vs
+        else:
+            head = 'toomany ' + vs
+        if self.jittered(case) and not marks:
+            return self.render_call(case, obs, True) + ' base ' + self.render_call(dict(case, jitter=h(0.0)), obs['base'])
+        return head
 
     # ------------------------------------------------------------------ oracle (independent of the model)
     def oracle(self, case, obs):
@@ -934,7 +1108,9 @@ class C15(Property):
                                % (self.describe(case), obs['exc'], len(obs['vals'])))
             return None
         silent = count is None and Fa == U                # default count with factor 1: statement is silent
-        maybe_stuck = count is None and 0 < start < TINY  # rounding may absorb the factor on subnormals
+        # rounding may absorb the factor on subnormals: then no sequence of doubles grows by one multiplication per
+        # step from start to stop, and a ValueError before the first value is accepted
+        maybe_stuck = count is None and 0 < start < TINY and start < stop and self.gets_stuck(start, stop, factor)
         for name, o in runs:
             if silent:
                 continue                                  # only the shape of whatever was yielded is judged
@@ -1004,6 +1180,20 @@ class C15(Property):
         self._nt = bool(n and grew and v[-1] == T)
         return None
 
+    @staticmethod
+    def gets_stuck(start, stop, factor):
+        """does stepping x -> x * factor (one IEEE multiplication) from a subnormal start stop making progress
+        below stop?  Only possible among subnormals (a normal double times a factor > 1 is a larger double)."""
+        x = start
+        for _ in range(200000):
+            if x >= stop or x >= TINY:
+                return False
+            nx = x * factor
+            if nx == x:
+                return True
+            x = nx
+        return False
+
     def nontrivial(self, case, obs):
         return getattr(self, '_nt', False)
 
@@ -1069,7 +1259,7 @@ class C15(Property):
         if c == 'repeat' and case['take'] > 1:
             yield dict(case, take=max(1, case['take'] // 2))
             yield dict(case, take=case['take'] - 1)
-        if case['inst'] != 'F':
+        if case['inst'] == 'Q':
             return
         if case['fn'] == 'I' and c != 'repeat':
             yield dict(case, fn='L')
